@@ -500,6 +500,24 @@ def binning_rule(model, res):
                 for y in ast.walk(w.node):
                     if isinstance(y, ast.Call) and isinstance(y.func, ast.Attribute) and y.func.attr == "resample":
                         sites.append((fn, x, conv(w, y, binding)))
+    # the aggregator applied to each resampler: every frame of a run takes the FIRST observation of a bar (the Uniswap
+    # wrapper aggregates per column rule, checked with the column table); prices and markets must agree
+    aggs = []
+    for fn in funcs:
+        for x in ast.walk(fn.node):
+            if isinstance(x, ast.Call) and isinstance(x.func, ast.Attribute) and isinstance(x.func.value, ast.Call) \
+                    and isinstance(x.func.value.func, ast.Attribute) and x.func.value.func.attr == "resample":
+                aggs.append((fn, x, x.func.attr))
+    if aggs:
+        ref_agg = next((a for f_, x, a in aggs if f_ is sw and "index" in ast.unparse(x)), aggs[0][2])
+        for fn, x, a in aggs:
+            ok = a == ref_agg
+            res.ob("R-TIME", f"{fn.qualname}: resampled with `.{a}()` like the bar index (`.{ref_agg}()`)", fn.loc(x), ok=ok)
+            if not ok:
+                res.find("R-TIME", fn.qualname, f"resampled with .{a}() while the bar index uses .{ref_agg}()", fn.loc(x),
+                         f"{fn.qualname}: `{ast.unparse(x)[:80]}` takes the `{a}` observation of each bar, the other frames of the run take "
+                         f"the `{ref_agg}` one: within one bar prices and market data come from different minutes (the last minute of "
+                         f"bar k is data of the future at the start of bar k)")
     idx = [s for s in sites if s[0] is sw and "index" in ast.unparse(s[1])]
     if not idx:
         raise AnalysisError("C02: the resampling that defines the bar index was not found in Actuator.switch_interval")
